@@ -70,6 +70,10 @@ type Ledger struct {
 
 	// SubDelay makes Subscribe take (virtual) time, as a broker round trip would
 	SubDelay time.Duration
+
+	// Retain keeps the byte slice handed to Enqueue as it is (an in-memory store would) instead of
+	// copying it: whatever the caller later does to that memory shows in the stored entry
+	Retain bool
 }
 
 func NewLedger(env *Env, prio bool) *Ledger {
@@ -130,7 +134,11 @@ func (l *Ledger) enqueue(item any, prio int) bool {
 	it := &lItem{Seq: l.nextSeq, Prio: prio}
 	l.nextSeq++
 	if b, ok := item.([]byte); ok {
-		it.Bytes = append([]byte(nil), b...)
+		if l.Retain {
+			it.Bytes = b
+		} else {
+			it.Bytes = append([]byte(nil), b...)
+		}
 	} else {
 		it.Raw = item
 	}
@@ -341,7 +349,7 @@ func (l *Ledger) Recover(env *Env, c Cut) *Ledger {
 	r := NewLedger(env, l.prio)
 	for _, s := range append(append([]int{}, c.Unacked...), c.Pending...) {
 		src := l.items[s]
-		it := &lItem{Seq: src.Seq, Bytes: src.Bytes, Prio: src.Prio, Raw: src.Raw}
+		it := &lItem{Seq: src.Seq, Bytes: append([]byte(nil), src.Bytes...), Prio: src.Prio, Raw: src.Raw}
 		r.items[it.Seq] = it
 		if r.prio {
 			r.insert(it)
